@@ -220,11 +220,12 @@ func c19Alphabet(tier string) []c19Req {
 }
 
 func c19YAML(variant string) string {
-	b := PC{Name: "b", Lines: []string{"environment:", "  - 'K=1'"}}
+	// (the numbers are there for the JSON round trip of a REST update: 7 and 1048576 come back as float64)
+	b := PC{Name: "b", Lines: []string{"environment:", "  - 'K=1'", "vars:", "  BIG: 1048576", "  SMALL: 3", "  RATIO: 0.5"}}
 	pcs := []PC{{Name: "a", Restart: "no"}, b}
 	switch variant {
 	case "change-b":
-		pcs[1].Lines = []string{"environment:", "  - 'K=2'"}
+		pcs[1].Lines = []string{"environment:", "  - 'K=2'", "vars:", "  BIG: 1048576", "  SMALL: 3", "  RATIO: 0.5"}
 	case "remove-b":
 		pcs = pcs[:1]
 	case "add-c":
@@ -307,7 +308,7 @@ func c19Scenarios(tier string) []*Scenario {
 	}
 	// the websocket log route: a client that reads gets the lines the runner holds, and the server goes on serving
 	for _, ws := range c18wsScenarios(tier) {
-		if !strings.HasPrefix(ws.ID, "c18-ws-all") && !strings.HasPrefix(ws.ID, "c18-ws-history") {
+		if !strings.HasPrefix(ws.ID, "c18-ws-all") && !strings.HasPrefix(ws.ID, "c18-ws-history") && !strings.HasPrefix(ws.ID, "c18-ws-two") {
 			continue
 		}
 		ws := ws
